@@ -1081,9 +1081,128 @@ def optional_ref_stream(ctx):
                                 % (r['value'], r.get('Sg2'), r.get('Sn_target'), r.get('tm2_a'), r.get('tm_target_a')), case)
 
 
+def requery_stream(ctx, n):
+    """the same look-up by field values asked again AFTER the field was changed through a member model (or the group):
+    every answer is the set of devices that have the values NOW (reference: a scan of the field arrays)"""
+    import andes
+    import numpy as np
+    cases = ['kundur/kundur_full.xlsx', 'ieee14/ieee14_full.xlsx']
+    for k in range(n):
+        case = ctx.rng.choice(cases)
+        ss = andes.load(andes.get_case(case), no_output=True, default_config=True, setup=bool(ctx.rng.random() < 0.7))
+        gname = ctx.rng.choice(['StaticGen', 'StaticLoad', 'SynGen', 'Exciter', 'TurbineGov'])
+        G = ss.groups[gname]
+        mdls = [m for m in G.models.values() if m.n > 0]
+        if not mdls:
+            continue
+        field = ctx.rng.choice(['u', 'Sn', 'bus'] if gname in ('StaticGen', 'StaticLoad', 'SynGen') else ['u'])
+        if not all(field in m.params for m in mdls):
+            continue
+
+        def scan(value):
+            return [i for m in G.models.values() for i, v in zip(m.idx.v, m.__dict__[field].v) if v == value]
+
+        def ask(value):
+            try:
+                r = G.find_idx(field, [value], allow_none=True, default=None, allow_all=True)[0]
+                return [x for x in r if x is not None]
+            except Exception as e:      # noqa
+                return 'ERR:' + type(e).__name__
+        m0 = ctx.rng.choice(mdls)
+        uid = ctx.rng.randrange(m0.n)
+        old = m0.__dict__[field].v[uid]
+        old = old.item() if hasattr(old, 'item') else old
+        others = [v for m in mdls for v in m.__dict__[field].v if v != old]
+        new = (0 if old else 1) if field == 'u' else (ctx.rng.choice(others) if others and ctx.rng.random() < 0.7 else
+                                                      (old * 2 + 1 if field == 'Sn' else ss.Bus.idx.v[0]))
+        new = new.item() if hasattr(new, 'item') else new
+        spec = {'stream': 'requery', 'case': case, 'group': gname, 'field': field, 'model': m0.class_name, 'uid': uid,
+                'old': old, 'new': new}
+        ctx.case(json.dumps(spec, sort_keys=True, default=str), spec)
+        ctx.count('requery_cases')
+        bad = None
+        for phase in ('before', 'after-model-edit', 'after-group-edit'):
+            if phase == 'after-model-edit':
+                via = ctx.rng.choice(['alter', 'set'])
+                if via == 'alter':
+                    m0.alter(field, m0.idx.v[uid], new)
+                else:
+                    m0.set(field, m0.idx.v[uid], 'v', new)
+            elif phase == 'after-group-edit':
+                G.set(field, m0.idx.v[uid], 'v', old)
+            for value in (old, new):
+                got, want = ask(value), scan(value)
+                if got != want and bad is None:
+                    bad = (phase, value, got, want)
+        if bad:
+            ctx.oracle_fail('find-stale-after-edit', '%s.find_idx(%r, [%r], allow_all=True) %s returns %r; the devices that have the '
+                            'value now are %r' % (gname, field, bad[1], bad[0], bad[2], bad[3]), spec)
+
+
+REMOTE_SCRIPT = r'''
+import sys, json, warnings
+warnings.simplefilter('ignore')
+import andes
+andes.config_logger(stream_level=50)
+spec = json.loads(sys.argv[1])
+ss = andes.load(andes.get_case('kundur/kundur_ieeest.xlsx'), setup=False, no_output=True, default_config=True)
+b0 = ss.Bus.idx.v[0]
+new = spec['newbus']                      # idx of an extra bus (0 is a valid numeric idx), tied to the network by a line
+ss.add('Bus', dict(idx=new, name='RB', Vn=ss.Bus.Vn.v[0], v0=1.0, a0=0.0))
+ss.add('Line', dict(bus1=b0, bus2=new, r=0.001, x=0.02, b=0.0, Vn1=ss.Bus.Vn.v[0], Vn2=ss.Bus.Vn.v[0]))
+ss.add('PQ', dict(bus=new, p0=0.05, q0=0.01, Vn=ss.Bus.Vn.v[0]))
+own = ss.IEEEST.bus.v[0] if len(ss.IEEEST.bus.v) and ss.IEEEST.bus.v[0] is not None else None
+ss.IEEEST.busr.v[0] = {'none': None, 'new': new, 'other': ss.Bus.idx.v[3]}[spec['busr']]
+ok = ss.setup()
+ss.PFlow.run(); ss.TDS.config.no_tqdm = 1
+import io, contextlib
+with contextlib.redirect_stdout(io.StringIO()):
+    ss.TDS.init()
+own = ss.Bus.idx.v[int(ss.Bus.idx2uid(ss.SynGen.get('bus', ss.Exciter.get('syn', ss.IEEEST.avr.v[0], 'v'), 'v')))]
+want = own if spec['busr'] == 'none' else ss.IEEEST.busr.v[0]
+uid = int(ss.Bus.idx2uid(want))
+fi = ss.IEEEST.busfreq.v[0]
+print(json.dumps({'setup': bool(ok), 'want': want, 'buss': ss.IEEEST.buss.v[0], 'v_a': int(ss.IEEEST.v.a[0]), 'want_v_a': int(ss.Bus.v.a[uid]),
+                  'busf_bus': ss.BusFreq.get('bus', fi, 'v'), 'n_busfreq_on_want': sum(1 for b in ss.BusFreq.bus.v if b == want)}, default=str))
+'''
+
+
+def _same_idx(a, b):
+    """1 and 1.0 name the same device; a string never equals a number"""
+    na, nb = isinstance(a, (int, float)), isinstance(b, (int, float))
+    return (float(a) == float(b)) if (na and nb) else (a == b and na == nb)
+
+
+def remote_bus_stream(ctx):
+    """an OPTIONAL remote-bus reference read through DataSelect (IEEEST.busr): blank -> the device's own bus; a valid
+    idx (numeric ZERO included) -> that bus, for the voltage input AND for the frequency helper found or created"""
+    import subprocess
+    import sys
+    for busr, newbus in (('none', 0), ('new', 0), ('new', ctx.rng.choice([77, 123])), ('other', 0)):
+        spec = {'busr': busr, 'newbus': newbus}
+        p = subprocess.run([sys.executable, '-c', REMOTE_SCRIPT, json.dumps(spec)], stdout=subprocess.PIPE, stderr=subprocess.PIPE,
+                           text=True, timeout=900)
+        case = dict(spec, stream='remote-bus')
+        ctx.case(json.dumps(case, sort_keys=True), case)
+        ctx.count('remote_bus:%s:%s' % (busr, newbus))
+        if p.returncode != 0:
+            last = p.stderr.strip().split('\n')[-1]
+            ctx.oracle_fail('remote-bus-run-raises', 'the remote-bus scenario crashed: ' + last[:200], case)
+            continue
+        r = json.loads(p.stdout.strip().split('\n')[-1])
+        if not r['setup']:
+            ctx.oracle_fail('valid-optional-reference-rejected', 'a valid (or blank) remote-bus reference made set-up fail: %r' % r, case)
+        elif not _same_idx(r['buss'], r['want']) or r['v_a'] != r['want_v_a'] or not _same_idx(r['busf_bus'], r['want']):
+            ctx.oracle_fail('optional-reference-wrong-device', 'IEEEST.busr = %r (own bus otherwise): selected bus %r, voltage input at address '
+                            '%r (bus %r sits at %r), frequency helper on bus %r' % (None if busr == 'none' else r['want'], r['buss'], r['v_a'],
+                                                                                 r['want'], r['want_v_a'], r['busf_bus']), case)
+
+
 def run(ctx):
     import andes
     andes.config_logger(stream_level=50)
+    requery_stream(ctx, ctx.n(12, 80))
+    remote_bus_stream(ctx)
     scs = corpus_scenarios()
     ctx.count('corpus', len(scs))
     scs += [gen_scenario(ctx.rng) for _ in range(ctx.n(100, 1500))]
